@@ -122,6 +122,7 @@ class FnStub:
         self.graph = self
         self.outer_scope_variables = {}
         self.nested_functions = {}
+        self.opset_imports = {}
 
     @property
     def assigned_names(self):
